@@ -743,7 +743,7 @@ class C04:
             return [e]
         if isinstance(e, (ast.ListComp, ast.GeneratorExp)):
             return self._dynamic_parts(fn, e.elt, depth)
-        if isinstance(e, ast.List):
+        if isinstance(e, (ast.List, ast.Tuple)):
             out = []
             for x in e.elts:
                 out += self._dynamic_parts(fn, x, depth)
@@ -771,6 +771,13 @@ class C04:
                     if isinstance(it, (ast.List, ast.Tuple)) and all(isinstance(x, ast.Constant) for x in it.elts):
                         return True
                     if norm(it).endswith(".name_fields"):
+                        return True
+                # unpacked from the rows of a literal table: `for pattern, replacement in (("a", "b"), ...)`
+                if isinstance(n, (ast.For, ast.comprehension)) and isinstance(n.target, (ast.Tuple, ast.List)) and any(
+                        isinstance(t, ast.Name) and t.id == d.id for t in n.target.elts):
+                    it = n.iter
+                    if isinstance(it, (ast.List, ast.Tuple)) and it.elts and all(
+                            isinstance(r, (ast.Tuple, ast.List)) and all(isinstance(x, ast.Constant) for x in r.elts) for r in it.elts):
                         return True
             # assigned from an escaped expression
             defs = [s for s in stmts_local(fn.body) if isinstance(s, ast.Assign) and norm(s.targets[0]) == d.id]
